@@ -17,8 +17,10 @@ Inductive jv :=
 | JObj (kvs : list (str * jv))
 | JList (vs : list jv).
 
-(* reference value of a filter statement: a scalar *)
-Inductive rv := RInt (n : Z) | RStr (s : str) | RBool (b : bool).
+(* reference value of a filter statement: a scalar. A (finite) float is the exact rational num / den it denotes
+   (float.as_integer_ratio(), den > 0) together with the text str() gives for it (the shortest-repr algorithm of
+   Python is not modelled: the text is part of the input) *)
+Inductive rv := RInt (n : Z) | RStr (s : str) | RBool (b : bool) | RFlt (num den : Z) (txt : str).
 
 Fixpoint str_eqb (a b : str) : bool :=
   match a, b with
@@ -59,21 +61,38 @@ Definition data_object_key : str := [100; 97; 116; 97; 79; 98; 106; 101; 99; 116
 (* ---- comparison of a stored value with a reference value (Python semantics) -------- *)
 Definition num_of (v : jv) : option Z :=
   match v with JInt n => Some n | JBool b => Some (b2z b) | _ => None end.
-Definition rnum (r : rv) : option Z :=
-  match r with RInt n => Some n | RBool b => Some (b2z b) | RStr _ => None end.
+(* the number a reference value denotes, as numerator and (positive) denominator *)
+Definition rnum (r : rv) : option (Z * Z) :=
+  match r with
+  | RInt n => Some (n, 1)
+  | RBool b => Some (b2z b, 1)
+  | RFlt n d _ => Some (n, d)
+  | RStr _ => None
+  end.
 
-(* v == r : numbers (bool is an int) by value, strings by content, everything else unequal *)
+(* v == r : numbers (bool is an int; int and float compare by exact value) by value, strings by content,
+   everything else unequal.  a == n/d  iff  a*d == n  (d > 0) *)
 Definition py_eq (v : jv) (r : rv) : bool :=
   match num_of v, rnum r with
-  | Some a, Some b => a =? b
+  | Some a, Some (n, d) => a * d =? n
   | _, _ => match v, r with JStr s, RStr t => str_eqb s t | _, _ => false end
   end.
 
 (* v < r etc.: defined for number/number and str/str, TypeError (None) otherwise *)
 Definition py_cmp (v : jv) (r : rv) : option comparison :=
   match num_of v, rnum r with
-  | Some a, Some b => Some (a ?= b)
+  | Some a, Some (n, d) => Some (a * d ?= n)
   | _, _ => match v, r with JStr s, RStr t => Some (lex_cmp s t) | _, _ => None end
+  end.
+
+(* well-formed: the denominator of a float is positive *)
+Definition rv_wf (r : rv) : Prop := match r with RFlt _ d _ => 0 < d | _ => True end.
+
+(* r1 and r2 denote the same number (1, True and 1.0; 0, False and 0.0; n and float(n)) *)
+Definition same_number (r1 r2 : rv) : Prop :=
+  match rnum r1, rnum r2 with
+  | Some (n1, d1), Some (n2, d2) => n1 * d2 = n2 * d1
+  | _, _ => False
   end.
 
 (* str(needle) *)
@@ -91,6 +110,7 @@ Definition rv_str (r : rv) : str :=
   | RStr s => s
   | RBool true => [84; 114; 117; 101]          (* "True" *)
   | RBool false => [70; 97; 108; 115; 101]     (* "False" *)
+  | RFlt _ _ txt => txt
   end.
 
 Fixpoint is_prefix (p s : str) : bool :=
@@ -288,13 +308,18 @@ Fixpoint dec_jv (fuel : nat) (l : list Z) {struct fuel} : option (jv * list Z) :
     end
   end.
 
-(* ref: 0 n | 1 len codes | 2 b *)
+(* ref: 0 n | 1 len codes | 2 b | 3 num den len codes (den > 0) *)
 Definition dec_rv (l : list Z) : option (rv * list Z) :=
   match l with
   | tag :: n :: u =>
       if tag =? 0 then Some (RInt n, u)
       else if tag =? 1 then Some (RStr (take n u), drop n u)
       else if tag =? 2 then Some (RBool (z2b n), u)
+      else if tag =? 3 then
+        match u with
+        | d :: k :: w => if 0 <? d then Some (RFlt n d (take k w), drop k w) else None
+        | _ => None
+        end
       else None
   | _ => None
   end.
